@@ -31,6 +31,7 @@ import warnings
 from pathlib import Path
 
 from tqv.core import (
+    _Timeout,
     REPO,
     ROOT,
     HarnessError,
@@ -72,6 +73,8 @@ def execute(sub: SubCheck, case: dict):
         return ("inconclusive", i.reason)
     except HarnessError as h:
         return ("harness", str(h))
+    except _Timeout:
+        return ("inconclusive", "timeout")  # a repeat alarm that slipped past time_limit's own handling
     except Exception as exc:  # noqa: BLE001
         mod = type(exc).__module__ or ""
         if mod.startswith("hypothesis"):
@@ -256,7 +259,13 @@ def run_unit(pid, subname, tier, seed, shard, nshards, n_cases, enabled_known, o
         elif sub.machine is not None:
             from tqv.machine import run_machine
 
-            run_machine(sub, dict(account=account, outcome=outcome, over_budget=over_budget, fail_cache=fail_cache, state=state), seed * 1000 + shard, n_cases, tier)
+            import hypothesis
+
+            try:
+                run_machine(sub, dict(account=account, outcome=outcome, over_budget=over_budget, fail_cache=fail_cache, state=state), seed * 1000 + shard, n_cases, tier)
+            except hypothesis.errors.Flaky:
+                if state["last_fail"] is None:
+                    inc["hypothesis_flaky"] += 1
             if state["last_fail"] is not None:
                 res["failure"] = state["last_fail"]
         else:
@@ -286,6 +295,13 @@ def run_unit(pid, subname, tier, seed, shard, nshards, n_cases, enabled_known, o
                 res["failure"] = state["last_fail"]
             except HarnessError:
                 pass
+            except hypothesis.errors.Flaky:
+                # a failure that did not reproduce identically inside Hypothesis (e.g. a time-out on the re-run under
+                # load): the recorded failing case, if any, is reported and its replay file decides
+                if state["last_fail"] is not None:
+                    res["failure"] = state["last_fail"]
+                else:
+                    inc["hypothesis_flaky"] += 1
         if state["harness"]:
             res["harness_error"] = state["harness"]
         res["nontrivial"] = dict(nt)
